@@ -101,6 +101,12 @@ class DK(pg.Object):
   s: T.Dict([(T.StrKey(), T.Any())]) = {}
 
 
+@pg.functor()
+def Fab(a, b=2, *args, c=3):      # pylint: disable=invalid-name,keyword-arg-before-vararg
+  """A functor with defaulted arguments (bound positionally by the generators; b / c usually stay unspecified)."""
+  return (a, b, args, c)
+
+
 CLASSES = {c.__name__: c for c in (P, Q, R, W, NC, Typed, Req, HT, HDoc, DK, SD, DV)}
 UNTYPED = ('P', 'Q', 'R', 'W')
 FIELDS = {'P': ('x', 'y'), 'Q': ('x', 'y'), 'R': ('x', 'y', 'z'), 'W': ('a', 'b'),
